@@ -64,11 +64,12 @@ theorem send_with_nextId_enabled (s : St) (h : Reachable s) (c seq ns : Nat) (sa
   exact fun h => hsalt (by simpa using h)
 
 /-- **every content-related message received from the server, alone or inside a container, is answered
-by a msgs_ack naming its msg_id**: it is acknowledged, or the acknowledgement is still owed; once the
-client is quiescent, all are acknowledged -/
+by a msgs_ack naming its msg_id**: it is acknowledged, or the acknowledgement is still owed, or its write
+failed (an environment fault, `ackLost`); once the client is quiescent, all are acknowledged except those
+whose write failed -/
 theorem every_content_message_acked (s : St) (h : Reachable s) :
-    (∀ mid ∈ s.gotOdd, mid ∈ s.owedAck ∨ mid ∈ s.acked) ∧
-    (quiescent s = true → ∀ mid ∈ s.gotOdd, mid ∈ s.acked) := by
+    (∀ mid ∈ s.gotOdd, mid ∈ s.owedAck ∨ mid ∈ s.acked ∨ mid ∈ s.lostAck) ∧
+    (quiescent s = true → ∀ mid ∈ s.gotOdd, mid ∈ s.acked ∨ mid ∈ s.lostAck) := by
   refine ⟨acksOk_reachable s h, ?_⟩
   intro hq mid hm
   rcases acksOk_reachable s h mid hm with ho | ha
@@ -77,6 +78,20 @@ theorem every_content_message_acked (s : St) (h : Reachable s) :
     rw [hq.1.1.1.2] at ho
     simp at ho
   · exact ha
+
+/-- in a history without write faults (the property's histories) a quiescent client has acknowledged
+every content-related message it received -/
+theorem every_content_message_acked_no_faults (s : St) (h : Reachable s) (hq : quiescent s = true)
+    (hf : s.lostAck = []) : ∀ mid ∈ s.gotOdd, mid ∈ s.acked := by
+  intro mid hm
+  rcases (every_content_message_acked s h).2 hq mid hm with ha | hl
+  · exact ha
+  · rw [hf] at hl; simp at hl
+
+/-- a write fault loses exactly the acknowledgements it names and nothing else: the ids go from "owed" to
+"lost", the loop goes on -/
+example : (run {} [.recv 70 1 .quiet, .recv 74 3 .quiet, .ackLost [70], .ack 1000 0 [74]]).map
+    (fun s => (s.owedAck, s.acked, s.lostAck, quiescent s)) = some ([], [74], [70], true) := by decide +kernel
 
 /-- an owed acknowledgement can always be sent (the receive loop never waits for anything to do so) -/
 theorem ack_enabled (s : St) (mid : Nat) (hm : mid ∈ s.owedAck) (id seq : Nat)
